@@ -71,6 +71,12 @@ CLAIMS["C15"] = {
     "design_ref": "DESIGN.md section 4, C15",
     "note": "Trusted: Lean kernel + standard axioms (reals); adaptive / dynamic thresholders (data-dependent mean thresholds) are exercised only with equal-magnitude LLR vectors containing both bit values, hysteresis only with |LLR| >= 1 (dead zone by design); sigmoid-domain consumers and the soft-input decoders are checked against the property on the implementation (a test), full decoder coverage is C10/C11.",
 }
+CLAIMS["C12"] = {
+    "technique": "Lean 4 theorems about channel models that take the uniform draws as an input (transition law per position, support, extremes, Z-channel never raises); correspondence through re-seeded runs that give model and implementation the same draws; rate / independence statistics as support only",
+    "text": "Unbounded theorems for every input, every draw vector and every probability: BSC output i is x_i flipped exactly when u_i < p on both alphabets (recognised as the code does, by the presence of a -1), stays in the input alphabet, p=0 is the identity and p=1 flips everything for draws in [0,1); BEC leaves every unerased symbol unchanged, erases exactly where u_i < p, outputs are input symbols or the erasure symbol, with the same extremes; the Z-channel consumes draws only at positions holding a 1, never turns a 0 into a 1 and outputs only 0/1; p=0 is the identity. Tie: for p in {0, 1e-3, 0.1, 0.25, 0.5, 0.9, 0.999, 1}, alphabets {0,1} / {-1,+1}, dtypes float32/int64/float64, shapes 1-D/2-D/3-D the real channel is run after torch.manual_seed(s), the draws are regenerated with the same seed and rand_like call and fed to the model; outputs must agree exactly; the input tensor must be unmodified and outputs inside the alphabet.",
+    "design_ref": "DESIGN.md section 4, C12",
+    "note": "Trusted: Lean kernel + standard axioms; that torch.rand_like yields independent uniform draws on [0,1) (the model's input) - supported by rate and lag-1 independence statistics on 10^6 symbols with a false-alarm bound <= 1e-9, recorded in the evidence, never used as a violation by themselves.",
+}
 
 NOT_YET = {}
 
